@@ -56,6 +56,7 @@ var diagClassTable = []struct{ prefix, contains, class string }{
 	{"Missing 'main' function", "", "nomain"},
 	{"Duplicate function definition of '", "", "dupfn"},
 	{"Duplicate definition of global '", "", "dupglobal"},
+	{"Duplicate definition of '", "': the name is already used by ", "nameclash"},
 	{"Type '", "' is already declared as ", "duptypedef"},
 }
 
